@@ -120,7 +120,12 @@ func ReceiveFeedback(item *models.Item) error {
 	}
 
 	item.SetSource(models.ItemSourceFeedback)
-	_, loaded := globalReactor.stateTable.Swap(item.GetID(), item)
+	// Only replace the entry of a seed that is being tracked: an unconditional Swap would store an
+	// unknown seed, for which no token is held
+	previous, loaded := globalReactor.stateTable.Load(item.GetID())
+	if loaded {
+		loaded = globalReactor.stateTable.CompareAndSwap(item.GetID(), previous, item)
+	}
 	verifhook.At("reactor.feedback.swapped", item.GetID())
 	if !loaded {
 		// An item sent to the feedback channel should be present on the state table, if not present reactor should error out
